@@ -130,6 +130,9 @@ class Monitor(object):
             self.member.append(True)
 
     def step(self, op, pre, post, effs):
+        for x in effs:
+            if x.startswith('ERaise (*') and 'escaped from' in x:
+                return 'an exception left the event code and would reach the main loop: ' + x[10:-3]
         ev = self.events
         from c10_env import ProcessStates
         stopped = (ProcessStates.STOPPED, ProcessStates.EXITED, ProcessStates.FATAL, ProcessStates.UNKNOWN)
@@ -219,6 +222,15 @@ class Monitor(object):
             return 'an exception escaped from finish() of a listener'
         if self.w.discard_log_mismatch:
             return 'number of error-level log lines differs from the number of discarded events plus write errors'
+        # ---- a main-loop pass over a pool with a queued event and a RUNNING+READY listener tries to send it,
+        #      wherever in the pool that listener is and whatever state the others are in
+        if op[0] == 'transition' and op[1] < len(pre) and effs != ['EInapplicable']:
+            from c10_env import EventListenerStates as _LS
+            buf, _, ls = pre[op[1]]
+            if buf and any(l[0] == ProcessStates.RUNNING and l[1] == _LS.READY for l in ls):
+                if not any(x.startswith(('ESent', 'EEpipe', 'EWriteError')) for x in effs):
+                    return ('pool %d has queued events and a RUNNING+READY listener (listener states %r) but the pass '
+                            'sent nothing: the READY listener starves' % (op[1], [l[1] for l in ls]))
         # ---- FIFO: a dispatch pass sends a prefix of the queue, in queue order
         if op[0] in ('dispatch', 'transition') and op[1] < len(pre):
             pi = op[1]
@@ -261,7 +273,7 @@ class Monitor(object):
         return None
 
 
-def run_history(cfgs, ops, hk, gserial, maxdig, strip=False):
+def run_history(cfgs, ops, hk, gserial, maxdig, strip=False, partial=False):
     """-> (coq case, monitor verdict, trace info)"""
     import c09_drive as drv
     from c10_env import ProcessStates
@@ -396,6 +408,7 @@ def _run(chk, wd, proved):
         alpha.append(['feed', pi, 0, b'RESULT 2\nOKREADY\n'])
         alpha.append(['feed', pi, 0, b'RESULT 4\nFAILREADY\n'])
     alpha.append(['feed', 0, 0, b'garbage'])
+    alpha.append(['feed', 0, 1, b'garbage'])      # the last listener of a two-listener pool leaves the protocol
     alpha.append(['finish', 0, 0, b'', B])
     alpha.append(['stopfail', 0, 0])
     alpha.append(['dispatch', 0, [[['again'], ['again']]]])
@@ -404,7 +417,7 @@ def _run(chk, wd, proved):
     for cfgs in grid:
         setup = ready_setup(cfgs)
         for seq in itertools.product(alpha, repeat=depth):
-            if quick and rng.random() < 0.96:
+            if quick and rng.random() < 0.97:
                 continue
             if not quick and (cfgs[0][1] in (0, 3) and rng.random() < 0.7 or rng.random() < 0.5):
                 continue
@@ -505,6 +518,32 @@ def _run(chk, wd, proved):
                                'effects_with_strip_ansi_true': list(add.last_kinds[step][1]),
                                'explanation': 'whether a listener\'s answer accepts or rejects its event must be a function of '
                                               'the raw bytes it wrote; escape stripping is for the child log only'})
+
+    # ---- a result handler that raises something else than RejectEvent (second handler, body '!X')
+    for cfgs in g_cfgs[:2]:
+        for body in (b'RESULT 2\n!X', b'RESULT 2\n', b'RESULT 2\n!XREADY\n'):
+            ops = ready_setup(cfgs) + [['emit', 'Tick5Event'], ['emit', 'ProcessStateRunningEvent'], ['transition', 0, []],
+                                       ['transition', 1, []], ['feed', 0, 0, body], ['feed', 1, 0, body],
+                                       ['feed', 0, 0, b'!X'], ['transition', 0, []], ['emit', 'Tick5Event'], ['transition', 1, []]]
+            add(cfgs, ops, hk=1, tag='handler')
+            chk.dist('handler')
+
+    # ---- partial writes (the pipe takes a part of the envelope): judged on the implementation only - what a
+    #      listener finds on its stdin plus what is still buffered must be the whole envelopes that were sent
+    for cfgs in g_cfgs[:2]:
+        for room in (1, 30, 55):
+            for mid in ([], [['stop', 0, 0]], [['feed', 0, 0, b'RESULT 2\nOK']]):
+                ops = ready_setup(cfgs) + [['emit', 'Tick5Event'], ['emit', 'ProcessStateRunningEvent'],
+                                           ['dispatch', 0, [[['room', room]] * 3] * 3], ['dispatch', 1, [[['room', room]] * 3] * 3]] + mid + \
+                    [['writable', 0, 0, ['room', 7]], ['writable', 0, 0, B], ['writable', 1, 0, B], ['emit', 'Tick5Event'],
+                     ['transition', 0, []], ['transition', 1, []]]
+                case, verdict, kinds = run_history(cfgs, ops, 0, -1, maxdig, False, partial=True)
+                chk.dist('partial')
+                if verdict is not None and nviol[0] < 12:
+                    nviol[0] += 1
+                    chk.violation({'kind': 'the implementation breaks the event distribution property on this history',
+                                   'case': {'family': 'partial', 'pools': [list(c) for c in cfgs], 'handler': 0, 'gserial': -1,
+                                            'strip_ansi': False, 'ops': _js(ops)}, 'monitor': verdict})
 
     # ---- random histories
     def rand_cfgs():
@@ -627,7 +666,7 @@ def _run(chk, wd, proved):
     cov['distinct_nontrivial'] = len(distinct)
     cov['exhaustive'] = False
     cov['rule'] = ('%d histories: %d from the exhaustive part (every sequence of %d operations over %d operation kinds after a '
-                   'READY setup plus two emitted events, on %d two-pool configurations; quick tier samples 4%% of them, thorough 50%% of '
+                   'READY setup plus two emitted events, on %d two-pool configurations; quick tier samples 3%% of them, thorough 50%% of '
                    'buffer sizes 1-2 and 15%% of 0 and 3; every configuration once with listeners of different pools sharing their '
                    'priority and once sharing their process names), %d random '
                    'histories of 5-21 operations on 1-3 pools (12 subscription lists incl. type+supertype, duplicates, empty; '
